@@ -203,6 +203,22 @@ func (S *Specs) loadFile(path, pkg string, goFile bool) error {
 					cur.Flags[w] = "1"
 				}
 			}
+		case "atcall":
+			// atcall <callee name> requires[tags] <expr over p0, p1, ... and this function's parameters>
+			if cur == nil || len(words) < 4 {
+				return fmt.Errorf("%s: atcall <callee> requires <expr>", src)
+			}
+			k2, tags2 := splitTags(words[2])
+			if k2 != "requires" {
+				return fmt.Errorf("%s: atcall supports only requires", src)
+			}
+			text := strings.TrimSpace(strings.SplitN(trim, words[2], 2)[1])
+			if cur.CallSpecs == nil {
+				cur.CallSpecs = map[string][]*Clause{}
+			}
+			cl := &Clause{Kind: "atcall", Tags: tags2, Text: text, Src: src}
+			cur.CallSpecs["@"+words[1]] = append(cur.CallSpecs["@"+words[1]], cl)
+			last, lastAxiom = cl, nil
 		case "callspec":
 			// callspec <param> requires[tags] <expr over p0, p1, ...>
 			if cur == nil || len(words) < 4 {
